@@ -120,8 +120,14 @@ def run (ctx):
   ctx.ob('R-EFFECT', cl, "each submitted function is handed over exactly once", iv == (1, 1), "hand-off count %s" % (iv,), cl, 'D1')
   # ---- D2 ----------------------------------------------------------------------------------------
   tcl = q.find_method(repo, clt, 'callLater', 'C07'); trun = q.find_method(repo, clt, 'run', 'C07'); ctx.analysed(tcl); ctx.analysed(trun)
+  # the queue attribute is whatever the task's constructor binds to a deque (a consistent rename of the private attribute is no change)
+  QA = 'self._calls'
+  ci_ = clt.methods.get('__init__')
+  if ci_ is not None:
+    dq_ = [norm(t_) for t_, v_, st_, k_ in q.stores_in(ci_.node) if isinstance(t_, ast.Attribute) and norm(t_.value) == 'self' and isinstance(v_, ast.Call) and call_name(v_) == 'deque']
+    if len(dq_) == 1: QA = dq_[0]
   g = q.cfg_of(tcl)
-  app = g.nodes_with_call(lambda c: call_name(c) in ('append', 'appendleft', 'insert', 'extend') and isinstance(c.func, ast.Attribute) and q.alias_of(tcl.node, c.func.value, 'self._calls'))
+  app = g.nodes_with_call(lambda c: call_name(c) in ('append', 'appendleft', 'insert', 'extend') and isinstance(c.func, ast.Attribute) and q.alias_of(tcl.node, c.func.value, QA))
   png = g.nodes_with_call(lambda c: call_name(c) == 'ping')
   ctx.floor('call-later publish/signal sites', len(app) + len(png), 2)
   if app and png:
@@ -138,7 +144,7 @@ def run (ctx):
   except AnalysisError: raise
   g = q.cfg_of(trun)
   pong = g.nodes_with_call(lambda c: call_name(c) in ('pongAll', 'pong_all', 'pong') and isinstance(c.func, ast.Attribute))
-  pops = g.nodes_with_call(lambda c: call_name(c) in ('popleft', 'pop') and isinstance(c.func, ast.Attribute) and q.alias_of(trun.node, c.func.value, 'self._calls'))
+  pops = g.nodes_with_call(lambda c: call_name(c) in ('popleft', 'pop') and isinstance(c.func, ast.Attribute) and q.alias_of(trun.node, c.func.value, QA))
   ylds = [n for n in g.nodes if n.ast is not None and any(isinstance(x, ast.Yield) for x in walk_no_nested(n.ast) if True) and any(isinstance(x, ast.Call) and call_name(x) == 'Select' for x in ast.walk(n.ast))]
   ctx.floor('call-later consumer sites (wait, pong, pop)', len(pong) + len(pops) + len(ylds), 3)
   if pong and pops and ylds:
